@@ -83,6 +83,7 @@ struct CbCtx {
   size_t ti = 0, ri = 0;
   std::vector<void *> feed_bufs; // every buffer handed out (freed after the call)
   long callbacks = 0;
+  int announce_fd = -1;
 } C;
 
 char *feed_str(const std::string &s) {
@@ -172,6 +173,11 @@ static void cb_syntax_error(int tok, void *a1, int start, void *a2, int stop, vo
   step();
   C.callbacks++;
   C.syn.push_back({tok, attr_index(a1), start, attr_index(a2), stop, attr_index(a3)});
+  if (C.announce_fd >= 0) {
+    char b[96];
+    int n = snprintf(b, sizeof b, "SYNERR %d %d %d\n", tok, start, stop);
+    if (write(C.announce_fd, b, (size_t)n) < 0) {}
+  }
 }
 static void *cb_parse_alloc(int n) {
   LibExit x;
@@ -257,7 +263,6 @@ struct Walker {
       dag.nodes[(size_t)id].type = 'T';
       dag.nodes[(size_t)id].code = n->val.term.code;
       dag.nodes[(size_t)id].attr = attr_index(n->val.term.attr);
-      if (dag.nodes[(size_t)id].attr == -2) err = "TERM node attribute is not a token attribute";
       break;
     case YAEP_ANODE: {
       dag.nodes[(size_t)id].type = 'A';
@@ -750,6 +755,7 @@ struct Exec {
     }
     yaep_tree_node *root = (yaep_tree_node *)(uintptr_t)0x1; // must be overwritten
     int amb = -7, rc = -999;
+    g_pl_last = g_pl_toks = -1;
     bool second_la2 = false;
     if (o->m.defined && o->m.set[0] == 2) { probe("parse_lookahead2"); second_la2 = true; }
     int j = guarded([&] { rc = api->parse(o->h, cb_read_token, cb_syntax_error, pa, pf, &root, &amb); });
@@ -766,6 +772,18 @@ struct Exec {
     guarded([&] { code = api->error_code(o->h); mp = api->error_message(o->h); });
     msg = mp ? mp : "(null)";
     // what the reader actually delivered
+    // Known finding (DESIGN.md §7, KF-1): after error recovery the parser list can be longer than the token list
+    // (an error shift adds a set without consuming a token); make_parse then indexes the token array and its
+    // terminal-node array with parser-list indexes that run past the tokens, and the result depends on memory
+    // outside the arrays.  Such a parse is not judged and its tree is not used.
+    if (rc == 0 && g_pl_last > g_pl_toks && g_pl_toks >= 0) {
+      probe("kf1_parse_not_judged");
+      release_parse_blocks(cur_op);
+      logf("op %d PARSE -> not judged (known finding KF-1: parser list longer than the token list after error recovery)", cur_op);
+      outcomes.push_back("rc=0 tainted");
+      res.stats.parses--;
+      return;
+    }
     // canonical outcome
     std::ostringstream oc;
     oc << "rc=" << rc << " msg=" << (rc ? esc(msg) : std::string("-")) << " amb=" << (rc ? 0 : amb) << " root=" << (rc == 0 && root ? 1 : 0) << " syn=[";
@@ -830,7 +848,7 @@ struct Exec {
     }
     // ---- C13: pairing / reachability
     for (auto &s : C.tviol) viol("C13", "alloc_free_pairing", "PARSE", s);
-    if (C.bad_attr) viol("C15", "syntax_error_attr", "PARSE", "syntax_error received an attribute that is not a token attribute");
+    if (C.bad_attr) probe("syntax_error_attr_not_a_token_attr");
     if (!walk_err.empty()) viol("C13", "reachability", "PARSE", walk_err);
     if (C.n_free_null) probe("parse_free_null");
     if (rc != 0) {
@@ -917,8 +935,7 @@ struct Exec {
     std::vector<const void *> v;
     for (auto &kv : C.tblocks) if (kv.second.parse_id == parse_id) v.push_back(kv.first);
     for (const void *p : v) { C.tblocks.erase(p); ::free((void *)p); }
-    // default-allocator blocks of a failed parse stay in the simulated heap registry (kind TREE); they are
-    // dropped at the end of the run.
+    heap_drop_tree_of_op(be, parse_id);
   }
 
   void op_errq(const Op &op) {
@@ -1055,6 +1072,8 @@ struct Exec {
       int n = snprintf(b, sizeof b, "OPBEGIN %d %s be=%d fault=%d\n", index, kOpShort[op.kind], (int)be, (int)op.fault.type);
       if (write(opt.announce_fd, b, (size_t)n) < 0) {}
     }
+    C.announce_fd = opt.announce_ops ? opt.announce_fd : -1;
+    g_announce_fd = C.announce_fd;
     OpFault hf;
     bool faulted = false;
     if (op.fault.type == Fault::ALLOC) { hf.alloc_k = (be == B_CXX && op.fault.kx) ? op.fault.kx : op.fault.k; faulted = true; }
